@@ -2,7 +2,8 @@
 # ./selftest.sh <property id> <patch.diff> : apply a patch to a scratch copy of /repo (outside /repo and /verif),
 # run the property's check against it, remove the copy. Prints the check's last lines and its exit code.
 pid=$1; patch=$(readlink -f "$2"); tier=${3:-quick}
-d=$(mktemp -d /root/scratch/st.XXXXXX)
+scratch=${VERIF_SCRATCH:-/root/scratch}; mkdir -p "$scratch"
+d=$(mktemp -d "$scratch/st.XXXXXX")
 cp -r /repo/src /repo/cmake "$d"/ 2>/dev/null
 ( cd "$d" && patch -p1 -s --no-backup-if-mismatch < "$patch" ) || { echo "PATCH FAILED"; rm -rf "$d"; exit 9; }
 VERIF_OUT="$d/out" CMINX_SRC="$d/src" CMINX_CMAKE="$d/cmake" /verif/check "$pid" --tier "$tier" 2>&1 | sed "s#$d#<scratch>#g" | tail -${LINES_OUT:-6}
